@@ -35,7 +35,16 @@ var gKnownPatterns = []struct {
 var gKnownRejected = map[string]string{}
 
 // gKnown: the key and the reason under which a failing sentence of G is a listed finding, if it is.
-func gKnown(s gSentence) (key, why string, ok bool) {
+// gKnownErr: the message a listed pattern finding fails with. A sentence that matches the pattern but fails in another way is
+// NOT the listed finding (the pattern alone would mask a new rejection of, say, every "((SELECT" sentence).
+var gKnownErr = map[string]*regexp.Regexp{
+	"table_subquery_in_parens":           regexp.MustCompile(`expected token: JOIN, but: \)`),
+	"subscript_offset_ordinal_column":    regexp.MustCompile(`expected token: \(, but: `),
+	"search_index_interleave_after_list": regexp.MustCompile(`expected token \(, UNNEST, but: <ident>|expected token: <eof>, but: IN|expected token: <ident>, but: IN`),
+	"named_type_scalar_prefix":           regexp.MustCompile(`but: \.`),
+}
+
+func gKnown(s gSentence, detail string) (key, why string, ok bool) {
 	if why, ok := gKnownRejected[s.text]; ok {
 		return s.prod, why, true
 	}
@@ -44,6 +53,9 @@ func gKnown(s gSentence) (key, why string, ok bool) {
 	}
 	for _, p := range gKnownPatterns {
 		if p.re.MatchString(s.text) {
+			if er := gKnownErr[p.name]; er != nil && !er.MatchString(detail) {
+				continue
+			}
 			return p.name, p.why, true
 		}
 	}
@@ -59,3 +71,4 @@ var gExcluded = []struct {
 	// column types of the DDL: STRING and BYTES must carry a length; a proto/enum type cannot be spelled like them
 	{regexp.MustCompile(`(?i)^(CREATE|ALTER) .*\b(STRING|BYTES)\b *([^( ]|$)`), "STRING / BYTES without a length as a DDL column type (the identifier pool put the word where a proto type name goes)"},
 }
+
